@@ -213,6 +213,24 @@ pub fn with_attrs(mut cfg: Cfg, ask: &[&str], bid: &[&str]) -> Cfg {
     cfg
 }
 
+/// bids whose fee is zero also arrive with the fee spelled out as a zero coin (a legal request: "fee": {"amount": "0", ...})
+pub fn with_explicit_zero_fees(mut s: Scenario) -> Scenario {
+    let extra: Vec<Act> = s
+        .l
+        .iter()
+        .filter_map(|a| match &a.req {
+            Req::CreateBid { id, base, fee: None, price, quote, quote_size, size } => {
+                let funds: Vec<(u128, &str)> = a.funds.iter().map(|c| (c.amount.u128(), c.denom.as_str())).collect();
+                Some(Act::new(&a.sender, funds, Req::CreateBid { id: id.clone(), base: base.clone(), fee: Some((quote.clone(), 0)), price: price.clone(), quote: quote.clone(), quote_size: *quote_size, size: *size }))
+            }
+            _ => None,
+        })
+        .collect();
+    s.l.extend(extra);
+    s.name = format!("{}/explicit-zero-fees", s.name);
+    s
+}
+
 /// S1: legacy orders stored under un-hyphenated ids, plus L requests that address them
 pub fn with_legacy_seed(mut s: Scenario) -> Scenario {
     let aid = legacy_ask_key();
@@ -330,6 +348,7 @@ pub fn mid_history_migrations() -> Vec<(&'static str, serde_json::Value)> {
         ("clear the bid fee", json!({"bid_fee_rate": "", "bid_fee_account": ""})),
         ("clear the ask fee", json!({"ask_fee_rate": "", "ask_fee_account": ""})),
         ("no approvers", json!({"approvers": []})),
+        ("replace the approvers", json!({"approvers": ["approver2"]})),
     ]
 }
 
@@ -352,10 +371,21 @@ fn ledger_scenarios(tier: Tier, extra_probes: &dyn Fn(&Cfg, &Menu) -> Vec<Act>) 
     mk("B11/P0/F3/R0", Cfg::new(0, 1, ("0.5", "0.5"), "R0"), menu_p0(1, 1, vec!["1", "2"]), &mut v);
     mk("B11/P1/F1/R2/rur", with_markers(Cfg::new(0, 2, ("0.25", "0.25"), "R2"), "rur"), menu_p1(1, 1), &mut v);
     mk("B11/P2/F1/R0", Cfg::new(1, 10, ("0.25", "0.25"), "R0"), menu_p2(1, 1), &mut v);
+    // size increment a proper multiple of 10^precision: "price x increment whole" and "price within the precision" differ
+    mk("B11/P2/lot-above-tick", Cfg::new(1, 20, ("0.25", "0.25"), "R0"), Menu { prices: vec!["0.5", "1.5"], sizes: vec![20, 40], match_sizes: vec![10, 20, 40], reject_sizes: vec![20], ..menu_p2(1, 1) }, &mut v);
     mk("B11/p14/large-amounts", Cfg::new(14, 300_000_000_000_000, ("0.25", "0.25"), "R0"), menu_large(1, 1), &mut v);
     mk("B11/multi-denom/nrnur", with_markers(multi(Cfg::new(0, 2, ("0.25", "0.25"), "R0")), "nrnur"), menu_multi(1, 1), &mut v);
     mk("B11/base-also-convertible", overlap(Cfg::new(0, 2, ("0.25", "0.25"), "R0")), menu_p1(1, 1), &mut v);
     mk("B11/quote-is-base", quote_is_base(Cfg::new(0, 2, ("0.25", "0.25"), "R0")), menu_p1(1, 1), &mut v);
+    {
+        // fees that round to zero, written out as a zero coin
+        let cfg = Cfg::new(0, 1, ("0.1", "0.1"), "R0");
+        let mut menu = menu_p0(1, 1, vec!["2", "3"]);
+        menu.modifies = fee_account_swap(&cfg);
+        let mut p = extra_probes(&cfg, &menu);
+        p.extend(probes::match_respell(&alphabet_l(&cfg, &menu)));
+        v.push(with_explicit_zero_fees(scen("B11/P0/F2/R0", cfg, menu, p)));
+    }
     mk("B11/P0/rates-1.25-1.5", Cfg::new(0, 1, ("1.25", "1.5"), "R0"), Menu { sizes: vec![4, 10], match_sizes: vec![1, 4, 10], ..menu_p0(1, 1, vec!["1", "2"]) }, &mut v);
     v.extend(marker_family(extra_probes));
     mk("B11/P1/F1/R5", Cfg::new(0, 2, ("0.25", "0.25"), "R5"), menu_p1(1, 1), &mut v);
@@ -697,6 +727,17 @@ pub fn plan(prop: &str, tier: Tier) -> Plan {
             mk("B11/P3/F2/R0", Cfg::new(2, 100, ("0.1", "0.1"), "R0"), menu_p3(1, 1), &mut v);
             mk("B11/multi-denom/nrnur", with_markers(multi(Cfg::new(0, 2, ("0.25", "0.25"), "R0")), "nrnur"), menu_multi(1, 1), &mut v);
             v.push(with_legacy_seed(scen("B11/P1/F1/R0", Cfg::new(0, 2, ("0.25", "0.25"), "R0"), menu_p1(1, 1), vec![])));
+            {
+                // executor lists installed in either order: every listed executor can expire every open order
+                let cfg = Cfg::new(0, 2, ("0.25", "0.25"), "R0");
+                let r = cfg.roles.clone();
+                let mut menu = Menu { prices: vec!["2"], sizes: vec![2], match_sizes: vec![1, 2], ..menu_p1(1, 1) };
+                menu.modifies = vec![
+                    ("executors := [exec2, exec]", Modify { executors: Some(vec![r.get("exec2").into(), r.get("exec").into()]), ..Default::default() }),
+                    ("executors := [exec, stranger, exec2]", Modify { executors: Some(vec![r.get("exec").into(), r.get("stranger").into(), r.get("exec2").into()]), ..Default::default() }),
+                ];
+                v.push(scen("B11/P1/F1/R0/executor-lists", cfg, menu, vec![]));
+            }
             v.extend(upgrade_family(&no_probes, true));
             v.extend(marker_family(&no_probes));
             if th {
@@ -725,6 +766,7 @@ pub fn plan(prop: &str, tier: Tier) -> Plan {
             mk("B11/P0/F0", Cfg::new(0, 1, ("", ""), "R0"), small(menu_p0(1, 1, vec!["1", "3"])), &mut v);
             mk("B11/P2/F1", Cfg::new(1, 10, ("0.25", "0.25"), "R0"), small(menu_p2(1, 1)), &mut v);
             mk("B11/P3/F2", Cfg::new(2, 100, ("0.1", "0.1"), "R0"), small(menu_p3(1, 1)), &mut v);
+            mk("B11/P2/lot-above-tick", Cfg::new(1, 20, ("0.25", "0.25"), "R0"), small(Menu { prices: vec!["0.5", "1.5"], sizes: vec![20, 40], ..menu_p2(1, 1) }), &mut v);
             mk("B11/P1/F1/rnn", with_markers(Cfg::new(0, 2, ("0.25", "0.25"), "R0"), "rnn"), small(menu_p1(1, 1)), &mut v);
             mk("B11/P1/F1/unr", with_markers(Cfg::new(0, 2, ("0.25", "0.25"), "R0"), "unr"), small(menu_p1(1, 1)), &mut v);
             mk("B11/P1/F1/rrr", with_markers(Cfg::new(0, 2, ("0.25", "0.25"), "R0"), "rrr"), small(menu_p1(1, 1)), &mut v);
@@ -790,6 +832,8 @@ pub fn plan(prop: &str, tier: Tier) -> Plan {
             mk("B11/P0/rate1", Cfg::new(0, 1, ("0.9", "1"), "R0"), plain(menu_p0(1, 1, vec!["1", "2"])), &mut v);
             mk("B11/P2/F1", Cfg::new(1, 10, ("0.25", "0.25"), "R0"), plain(menu_p2(1, 1)), &mut v);
             mk("B11/p14/large-amounts", Cfg::new(14, 300_000_000_000_000, ("0.25", "0.25"), "R0"), plain(menu_large(1, 1)), &mut v);
+            // two quote denominations: the fee is escrowed in the bid's own quote denomination, not in the other one
+            mk("B11/multi-denom", multi(Cfg::new(0, 2, ("0.25", "0.25"), "R0")), plain(menu_multi(1, 1)), &mut v);
             v.extend(upgrade_family(&|c, m| probes::fee_creates(c, m), false));
             v.extend(value_sweep(tier));
             if th {
